@@ -17,7 +17,7 @@ const (
 
 var c06Names = []string{"resetsFlags", "metaCompare", "tsPositive", "voidClears", "pushChecksType", "setSliceReplaces",
 	"u32delReleases", "u32delChecksType", "incFailClean", "noEmptyLive", "arekAllFalse", "countMissingOk",
-	"setErrSingle", "saveReleasesImmediate"}
+	"setErrSingle", "fltCondDirect", "saveReleasesImmediate", "wireExpNe0"}
 
 func init() {
 	Register("C06", Extractor{Import: "Hv.Props.C06", Type: "Hv.C06.Facts", Run: func(fs *Facts) {
@@ -303,7 +303,18 @@ func c06All(gw, sw, tr *File) map[string]c06Fact {
 				case deferred:
 					rel = c06Fact{No, c06At(gw, del)}
 				}
-				if is := c06InsideIf(fl.Body, del); is != nil {
+				// an explicit type check before the slice is touched: `if _, e := …Uint32SliceSize(); e != nil { …; return }`
+				early := false
+				for _, st := range fl.Body.List {
+					if is, ok := st.(*ast.IfStmt); ok && is.Init != nil && gw.Contains(is.Init, ".Uint32SliceSize()") &&
+						strings.HasSuffix(gw.Str(is.Cond), "!= nil") && gw.Contains(is.Body, "return") && is.End() < del.Pos() {
+						if ds := gw.CallsSuffix(fl.Body, ".Uint32SliceDelete"); len(ds) == 1 && is.End() < ds[0].Pos() {
+							early = true
+							chk = c06Fact{Yes, c06At(gw, is)}
+						}
+					}
+				}
+				if is := c06InsideIf(fl.Body, del); is != nil && !early {
 					// innermost if around DeleteTreasure is `if err := …DeleteTreasure…`; take the enclosing one
 					var outer *ast.IfStmt
 					ast.Inspect(fl.Body, func(n ast.Node) bool {
@@ -396,22 +407,32 @@ func c06All(gw, sw, tr *File) map[string]c06Fact {
 		var at ast.Node
 		for _, nm := range []string{"Uint32SliceSize", "Uint32SliceIsValueExist", "Uint32SliceDelete"} {
 			a, n := checkArg(nm)
-			switch a {
-			case "false":
+			// an `IsExistSwamp` test that returns before `SummonSwamp` is as good as checkExist=true
+			guarded := false
+			if fd := gw.Func("Gateway", nm); fd != nil {
+				sums := gw.CallsSuffix(fd.Body, ".SummonSwamp")
+				for _, st := range fd.Body.List {
+					if is, ok := st.(*ast.IfStmt); ok && is.Init != nil && gw.Contains(is.Init, ".IsExistSwamp(") &&
+						gw.Contains(is.Body, "return") && len(sums) == 1 && is.End() < sums[0].Pos() {
+						guarded = true
+					}
+				}
+			}
+			switch {
+			case a == "true" || (a == "false" && guarded):
+				t++
+			case a == "false":
 				f++
 				at = n
-			case "true":
-				t++
 			}
 		}
+		// (a failed increment on a missing swamp is covered by incFailClean: it parks an in-flight treasure)
 		switch {
 		case f+t != 3:
 		case f > 0:
 			fact = c06Fact{No, c06At(gw, at)}
-		case out["incFailClean"].t == Yes:
+		default:
 			fact = c06Fact{Yes, gw.Path}
-		case out["incFailClean"].t == No:
-			fact = c06Fact{No, out["incFailClean"].where}
 		}
 		out["noEmptyLive"] = fact
 	}
@@ -501,6 +522,83 @@ func c06All(gw, sw, tr *File) map[string]c06Fact {
 			}
 		}
 		out["setErrSingle"] = fact
+	}
+
+	// ---- fltCondDirect: the ordering conditions of IncrementFloat32/64 ------------------------------
+	// yes: `if !(contentFloat > condition.Value) { fail }` (the stated comparison decides);
+	// no:  `if contentFloat <= condition.Value { fail }` (the complement decides: never fails on NaN)
+	{
+		fact := unk(sw)
+		direct := map[string]string{"RelationalOperatorGreaterThan": ">", "RelationalOperatorGreaterThanOrEqual": ">=",
+			"RelationalOperatorLessThan": "<", "RelationalOperatorLessThanOrEqual": "<="}
+		compl := map[string]string{"RelationalOperatorGreaterThan": "<=", "RelationalOperatorGreaterThanOrEqual": "<",
+			"RelationalOperatorLessThan": ">=", "RelationalOperatorLessThanOrEqual": ">"}
+		yes, no, other := 0, 0, 0
+		var at ast.Node
+		for _, fn := range []string{"IncrementFloat32", "IncrementFloat64"} {
+			fd := sw.Func("swamp", fn)
+			if fd == nil {
+				other++
+				continue
+			}
+			ast.Inspect(fd.Body, func(n ast.Node) bool {
+				cc, ok := n.(*ast.CaseClause)
+				if !ok || len(cc.List) != 1 {
+					return true
+				}
+				op := sw.Str(cc.List[0])
+				if _, ok := direct[op]; !ok {
+					return true
+				}
+				if len(cc.Body) != 1 {
+					other++
+					return true
+				}
+				is, ok := cc.Body[0].(*ast.IfStmt)
+				if !ok {
+					other++
+					return true
+				}
+				switch sw.Str(is.Cond) {
+				case "!(contentFloat " + direct[op] + " condition.Value)":
+					yes++
+				case "contentFloat " + compl[op] + " condition.Value":
+					no++
+					if at == nil {
+						at = is
+					}
+				default:
+					other++
+				}
+				return true
+			})
+		}
+		switch {
+		case other == 0 && yes == 8 && no == 0:
+			fact = c06Fact{Yes, sw.Path}
+		case other == 0 && no > 0 && yes+no == 8:
+			fact = c06Fact{No, c06At(sw, at)}
+		}
+		out["fltCondDirect"] = fact
+	}
+
+	// ---- wireExpNe0: treasureToKeyValuePair shows ExpiredAt when `!= 0` (yes) / `> 0` (no) ---------------
+	{
+		fact := unk(gw)
+		if fd := gw.Func("", "treasureToKeyValuePair"); fd != nil {
+			ast.Inspect(fd.Body, func(n ast.Node) bool {
+				if is, ok := n.(*ast.IfStmt); ok && gw.Contains(is.Body, "t.ExpiredAt =") {
+					switch gw.Str(is.Cond) {
+					case "treasureInterface.GetExpirationTime() > 0":
+						fact = c06Fact{No, c06At(gw, is)}
+					case "treasureInterface.GetExpirationTime() != 0":
+						fact = c06Fact{Yes, c06At(gw, is)}
+					}
+				}
+				return true
+			})
+		}
+		out["wireExpNe0"] = fact
 	}
 
 	// ---- saveReleasesImmediate: SaveFunction lets go of the guard when the write interval is 0 --------
